@@ -38,6 +38,12 @@ type ReplicaPlan struct {
 	// connection set-up.
 	Wait bool      `json:"wait"`
 	Cfg  drive.Cfg `json:"cfg"`
+	// FailApplyAt > 0: the FailApplyAt-th replicated entry this replica is asked to
+	// apply (counted from its first start, or from its restart when
+	// FailAfterRestart) reports one transient storage error; every other call
+	// succeeds. The replica must still converge.
+	FailApplyAt      int  `json:"fail_apply_at,omitempty"`
+	FailAfterRestart bool `json:"fail_after_restart,omitempty"`
 }
 
 // Case is one generated end-to-end case.
@@ -51,6 +57,11 @@ type Case struct {
 	// heartbeat messages reach the replica); false: PrimaryConfig nil, what
 	// cmd/kevo passes (10 s / 30 s).
 	FastHeartbeat bool `json:"fast_heartbeat"`
+	// Shape "aged_burst": a replica connects before the writes, receives a few
+	// early writes (and with them goes through its receive/reconnect cycles), sits
+	// connected through 16-22 s of silence and then gets a burst of 150-400
+	// single-key writes (more than one catch-up round of 100 entries).
+	Shape string `json:"shape,omitempty"`
 }
 
 const bigMem = 32 << 20
@@ -69,9 +80,44 @@ func genCase(t *rapid.T) Case {
 	c.PCfg = drive.Cfg{MemTableSize: mem, MaxMemTables: 4, SyncMode: rapid.IntRange(0, 2).Draw(t, "psync"), SyncBytes: 4096}
 	c.Keys = gen.Keys(t, 4, 24)
 	nk := len(c.Keys)
-	nph := rapid.IntRange(1, 4).Draw(t, "nphases")
 	tag := uint32(1)
 	vo := gen.ValOpts{MaxSmall: 120}
+	if rapid.IntRange(0, 6).Draw(t, "aged_burst") == 0 {
+		// minority class (the age costs wall time)
+		c.Shape = "aged_burst"
+		single := func(n int) (ops []Op) {
+			for i := 0; i < n; i++ {
+				if rapid.IntRange(0, 4).Draw(t, "ab_del") == 0 {
+					ops = append(ops, Op{Op: "del", K: rapid.IntRange(0, nk-1).Draw(t, "k")})
+				} else {
+					ops = append(ops, Op{Op: "put", K: rapid.IntRange(0, nk-1).Draw(t, "k"), V: value(t, tag, vo)})
+					tag++
+				}
+			}
+			return
+		}
+		c.Phases = []Phase{
+			{Ops: single(rapid.IntRange(2, 12).Draw(t, "ab_early")), PauseMs: rapid.SampledFrom(agedAges()).Draw(t, "ab_age")},
+			{Ops: single(rapid.IntRange(150, 400).Draw(t, "ab_burst"))},
+		}
+		c.FastHeartbeat = rapid.Bool().Draw(t, "fast_heartbeat")
+		if c.FastHeartbeat && !ev.Flag("idle_heartbeat_backlog") {
+			// open finding: with a heartbeat interval below the replica's receive
+			// period (about one Recv per second while it waits) the empty heartbeat
+			// messages of an idle period queue up in the stream in front of the data;
+			// the replica needs about 1.5 x the idle time to work through them
+			ev.R().Exclude("idle_heartbeat_backlog")
+			c.FastHeartbeat = false
+		}
+		c.Replicas = []ReplicaPlan{{JoinAt: 0, RestartAt: -1, UpAgainAt: -1, Wait: true,
+			Cfg: drive.Cfg{MemTableSize: rapid.SampledFrom([]int64{4096, bigMem, bigMem}).Draw(t, "rmem"), MaxMemTables: 4, SyncBytes: 4096}}}
+		if rapid.IntRange(0, 2).Draw(t, "ab_second") == 0 {
+			c.Replicas = append(c.Replicas, ReplicaPlan{JoinAt: rapid.IntRange(0, 2).Draw(t, "join"), RestartAt: -1, UpAgainAt: -1,
+				Wait: rapid.Bool().Draw(t, "wait"), Cfg: drive.Cfg{MemTableSize: bigMem, MaxMemTables: 4, SyncBytes: 4096}})
+		}
+		return c
+	}
+	nph := rapid.IntRange(1, 4).Draw(t, "nphases")
 	bulkAt, idleFew := -1, false
 	for p := 0; p < nph; p++ {
 		var ph Phase
@@ -183,6 +229,41 @@ func genCase(t *rapid.T) Case {
 		rp.Wait = rapid.Bool().Draw(t, "wait")
 		rp.Cfg = drive.Cfg{MemTableSize: rapid.SampledFrom([]int64{4096, bigMem, bigMem}).Draw(t, "rmem"), MaxMemTables: 4, SyncMode: 0, SyncBytes: 4096}
 		c.Replicas = append(c.Replicas, rp)
+	}
+	// transient apply failure on a replica (a quarter of the cases that have at
+	// least 5 writes): the failing call is placed inside the first multi-entry
+	// catch-up message of a replica that joins late or replays after a restart
+	writesBefore := func(b int) int {
+		n := 0
+		for _, ph := range c.Phases[:b] {
+			for _, o := range ph.Ops {
+				if o.Op != "flush" {
+					n++
+				}
+			}
+		}
+		return n
+	}
+	if writesBefore(nph) >= 5 && rapid.IntRange(0, 3).Draw(t, "applyfault") == 0 {
+		pick, w, after := -1, 0, false
+		for i, rp := range c.Replicas {
+			if rp.UpAgainAt >= 0 && writesBefore(rp.UpAgainAt) >= 5 {
+				pick, w, after = i, writesBefore(rp.UpAgainAt), true
+				break
+			}
+			if writesBefore(rp.JoinAt) >= 5 {
+				pick, w, after = i, writesBefore(rp.JoinAt), false
+				break
+			}
+		}
+		if pick < 0 {
+			// make the last replica join after the writes
+			pick, w, after = len(c.Replicas)-1, writesBefore(nph), false
+			rp := &c.Replicas[pick]
+			rp.JoinAt, rp.RestartAt, rp.UpAgainAt = nph, -1, -1
+		}
+		c.Replicas[pick].FailApplyAt = rapid.IntRange(2, min(w, 100)).Draw(t, "fail_apply_at")
+		c.Replicas[pick].FailAfterRestart = after
 	}
 	// by construction: after a bulk phase some replica joins or comes back (a
 	// restarted replica replays from sequence 1), so the bulk travels in 100-entry
@@ -320,6 +401,18 @@ func classify(c *Case) (bool, []string) {
 	if joinedFromStart {
 		cl = append(cl, "join_before_writes")
 	}
+	if c.Shape == "aged_burst" {
+		cl = append(cl, "aged_replica_then_burst(150-400)")
+		if c.FastHeartbeat {
+			cl = append(cl, "aged_burst_with_200ms_heartbeat")
+		}
+	}
+	for _, r := range c.Replicas {
+		if r.FailApplyAt > 0 {
+			cl = append(cl, "replica_apply_fault_once")
+			break
+		}
+	}
 	if np := len(c.Phases); np >= 2 && c.Phases[np-2].PauseMs >= 3000 && len(c.Phases[np-1].Ops) <= 5 {
 		for _, r := range c.Replicas {
 			if r.JoinAt <= np-2 && (r.RestartAt < 0 || r.UpAgainAt <= np-2) {
@@ -370,4 +463,14 @@ func classify(c *Case) (bool, []string) {
 	cl = append(cl, fmt.Sprintf("phases=%d", len(c.Phases)))
 	nt := s.txs > 0 || rot || s.midJoin || s.lateJoin || s.restart
 	return nt, cl
+}
+
+// agedAges: how long the replica of an aged_burst case sits idle. The quick
+// tier uses the short end (wall time); both are long enough for a reconnect
+// pause that grows with the replica's age to break the bound.
+func agedAges() []int {
+	if ev.Tier() == "thorough" {
+		return []int{15000, 18000, 22000}
+	}
+	return []int{15000, 16000}
 }
